@@ -25,12 +25,23 @@ import (
 type top struct {
 	Kind    string `json:"k"` // unlockT unlock0 unlockBad ticket ticketBad lock chpass chpassBad status dump sign getseed await
 	Timeout int64  `json:"t,omitempty"`
+	Fn      string `json:"fn,omitempty"` // Kind "req": a row of requestTable (c38_requests_test.go), sent through the queue
+	// Kind "sweep": every row of requestTable once, in this order (cheap while locked: guarded requests fail at once)
+	Fns []string `json:"fns,omitempty"`
+}
+
+func genSweep(t *rapid.T) top {
+	var all []string
+	for _, r := range requestTable {
+		all = append(all, r.Fn)
+	}
+	return top{Kind: "sweep", Fns: rapid.Permutation(all).Draw(t, "sweepOrder")}
 }
 
 var (
-	interfering = []string{"unlockBad", "unlockBad", "unlockBad", "ticket", "ticketBad", "chpass", "chpassBad", "status", "dump", "sign", "getseed"}
+	interfering = []string{"unlockBad", "unlockBad", "unlockBad", "ticket", "ticketBad", "chpass", "chpassBad", "status", "dump", "sign", "getseed", "req", "req", "req", "req"}
 	anyTop      = append([]string{"unlockT", "unlock0", "lock", "lock"}, interfering...)
-	probes      = []string{"status", "dump", "sign", "getseed"}
+	probes      = []string{"status", "dump", "sign", "getseed", "req", "req", "req", "req", "req", "req"}
 )
 
 func genTop(t *rapid.T, from []string) top {
@@ -40,6 +51,8 @@ func genTop(t *rapid.T, from []string) top {
 		o.Timeout = rapid.SampledFrom([]int64{1, 1, 2}).Draw(t, "timeout")
 	case "unlockBad", "ticket", "ticketBad":
 		o.Timeout = rapid.SampledFrom([]int64{0, 0, 1, 30}).Draw(t, "timeout")
+	case "req": // guarded rows twice as likely as allowed ones
+		o.Fn = rapid.SampledFrom(append(requestNames(true), append(requestNames(true), requestNames(false)...)...)).Draw(t, "fn")
 	}
 	return o
 }
@@ -48,6 +61,9 @@ func genTop(t *rapid.T, from []string) top {
 // [probes]+ ; built so that most awaits really have to wait for the wallet's own timer.
 func genTimeoutHistory(t *rapid.T) []top {
 	var ops []top
+	if rapid.IntRange(0, 2).Draw(t, "sweepAtStart") == 0 { // locked since start-up, password in memory
+		ops = append(ops, genSweep(t))
+	}
 	for seg, n := 0, rapid.IntRange(1, 2).Draw(t, "segments"); seg < n; seg++ {
 		for i, k := 0, rapid.IntRange(0, 3).Draw(t, "pre"); i < k; i++ {
 			ops = append(ops, genTop(t, anyTop))
@@ -59,7 +75,7 @@ func genTimeoutHistory(t *rapid.T) []top {
 		for i, k := 0, rapid.IntRange(1, 4).Draw(t, "inside"); i < k; i++ {
 			ops = append(ops, genTop(t, interfering))
 		}
-		ops = append(ops, top{Kind: "await"})
+		ops = append(ops, top{Kind: "await"}, genSweep(t)) // relocked by its own timer: now nothing guarded may work
 		for i, k := 0, rapid.IntRange(1, 3).Draw(t, "post"); i < k; i++ {
 			ops = append(ops, genTop(t, probes))
 		}
@@ -68,16 +84,17 @@ func genTimeoutHistory(t *rapid.T) []top {
 }
 
 type timeoutStats struct {
-	waited, skipped            int
-	badUnlockInside, chpassIns bool
+	waited, skipped               int
+	requests, requestsWhileLocked int
+	badUnlockInside, chpassIns    bool
 }
 
-func runTimeoutHistory(t lib.TB, ops []top) (st timeoutStats) {
-	w := newWorld() // locked, password pw0 in memory, two accounts
+func runTimeoutHistory(t lib.TB, airDrop bool, ops []top) (st timeoutStats) {
+	w := newWorld(airDrop) // locked, password pw0 in memory, two accounts, key file, air-drop account iff airDrop
 	defer w.n.destroy()
 	wl, cur := w.n.w, pw0
 	fail := func(step int, format string, a ...interface{}) {
-		lib.Violation(t, prop, "TestPropTimeoutHistory", map[string]interface{}{"ops": ops[:step+1]}, "step %d (%+v): %s", step, ops[step], fmt.Sprintf(format, a...))
+		lib.Violation(t, prop, "TestPropTimeoutHistory", map[string]interface{}{"airDropAccountAtStart": airDrop, "ops": ops[:step+1]}, "step %d (%s %s): %s", step, ops[step].Kind, ops[step].Fn, fmt.Sprintf(format, a...))
 	}
 	// model: open windows since the last closing evidence
 	untimed, timed := false, false
@@ -85,6 +102,23 @@ func runTimeoutHistory(t lib.TB, ops []top) (st timeoutStats) {
 	closeAll := func() { untimed, timed = false, false }
 	mayBeUnlocked := func() bool {
 		return untimed || (timed && heartbeat() < limitTicks)
+	}
+	request := func(step int, fn string, id int) {
+		open := mayBeUnlocked() // judged before the call: a window that is open when the request starts excuses it
+		err, leak := w.exec(fn, id)
+		st.requests++
+		if !open {
+			st.requestsWhileLocked++
+			lib.Class("locked_request_" + fn)
+			if requestByName(fn).Guarded && err == nil {
+				fail(step, "%s succeeded with no open unlock window (it must fail while the wallet is locked)", fn)
+			}
+			if leak != "" {
+				fail(step, "the reply of %s contains the %s although no unlock window is open", fn, leak)
+			}
+		} else if err == nil {
+			lib.Class("unlocked_request_ok_" + fn)
+		}
 	}
 	for step, o := range ops {
 		inWindow := timed && !untimed
@@ -121,6 +155,9 @@ func runTimeoutHistory(t lib.TB, ops []top) (st timeoutStats) {
 			}
 			if err := wl.ProcWalletSetPasswd(&types.ReqWalletSetPasswd{OldPass: old, NewPass: nw}); err == nil {
 				cur = nw
+				w.mu.Lock()
+				w.cur = nw
+				w.mu.Unlock()
 			}
 			st.chpassIns = st.chpassIns || inWindow
 		case "status":
@@ -141,6 +178,12 @@ func runTimeoutHistory(t lib.TB, ops []top) (st timeoutStats) {
 			}
 			if err == nil && !mayBeUnlocked() {
 				fail(step, "%s succeeded with no open unlock window", o.Kind)
+			}
+		case "req":
+			request(step, o.Fn, step)
+		case "sweep":
+			for i, fn := range o.Fns {
+				request(step, fn, step*100+i)
 			}
 		case "await":
 			switch {
@@ -166,9 +209,10 @@ func TestPropTimeoutHistory(t *testing.T) {
 	defer lib.Flush()
 	heartbeat()
 	rapid.Check(t, func(t *rapid.T) {
+		airDrop := rapid.IntRange(0, 3).Draw(t, "airDropAccountAtStart") > 0
 		ops := genTimeoutHistory(t)
 		lib.Eval()
-		st := runTimeoutHistory(t, ops)
+		st := runTimeoutHistory(t, airDrop, ops)
 		lib.ClassN("timeout_waited", st.waited)
 		lib.ClassN("timeout_wait_skipped_untimed_window_open", st.skipped)
 		if st.badUnlockInside {
@@ -180,7 +224,7 @@ func TestPropTimeoutHistory(t *testing.T) {
 		// non-trivial: the wallet's own timer had to close a window in which a failed whole-wallet unlock or a
 		// password change had arrived
 		if st.waited > 0 && (st.badUnlockInside || st.chpassIns) {
-			lib.NonTrivialCase(map[string]interface{}{"ops": ops})
+			lib.NonTrivialCase(map[string]interface{}{"airDropAccountAtStart": airDrop, "ops": ops})
 		}
 	})
 }
